@@ -46,6 +46,9 @@ def gen_value(rng, kind, name, k):
         else:
             v = dy(rng) if rng.random() < 0.85 else rng.choice([0.0, 1.0, -1.0])
         return hx(v), torch.tensor(v, dtype=t64)
+    if kind == "zint":
+        v = rng.randint(1, 9) if name in ("size", "recordsz") else rng.randint(-12, 20)
+        return str(v), v
     if kind == "bool":
         b = rng.random() < 0.5
         return ("T" if b else "F"), torch.tensor(b)
@@ -77,6 +80,8 @@ def show(v) -> str:
         if v.dtype == torch.bool:
             assert v.numel() == 1
             return "T" if bool(v) else "F"
+        if not v.dtype.is_floating_point and v.numel() == 1:
+            return str(int(v))
         v = v.to(torch.float64)
         if v.ndim == 0 or v.numel() == 1 and v.ndim <= 1 and False:
             return hx(float(v))
@@ -85,6 +90,8 @@ def show(v) -> str:
         return ",".join(hx(float(x)) for x in v.reshape(-1)) if v.numel() else "-"
     if isinstance(v, bool):
         return "T" if v else "F"
+    if isinstance(v, int):
+        return str(v)
     return hx(float(v))
 
 
@@ -96,6 +103,8 @@ def close(a: str, b: str, exact: bool) -> bool:
         if x == y:
             continue
         if x in ("T", "F") or y in ("T", "F"):
+            return False
+        if (len(x) != 16 or len(y) != 16) and "," not in x and "," not in y:      # machine integers: exact
             return False
         xs, ys = x.split(","), y.split(",")
         if len(xs) != len(ys):
@@ -148,7 +157,11 @@ def validate(ctx, mods: list[str], ex: Exploration, per_fn: int = 60) -> None:
                     kwargs[p] = v
                 try:
                     with torch.no_grad():
-                        r = f(**kwargs)
+                        try:
+                            r = f(**kwargs)
+                        except AttributeError:      # tensor-only methods (`.long()`): pass integers as 0-dim tensors
+                            r = f(**{k: (torch.tensor(v) if isinstance(v, int) and not isinstance(v, bool) and k != "pointer" and k != "size" else v)
+                                     for k, v in kwargs.items()})
                     py = show(r)
                 except Exception as e:  # the Python original rejects this input: skip (domain)
                     ex.count("translator_validation", "python-raised")
